@@ -1,5 +1,7 @@
 package main
 
+import "math/big"
+
 // Substitution over the term DAG and re-indexing of quantifiers over slice elements.
 
 // Apply rebuilds a node with new arguments through the simplifying constructors.
@@ -189,11 +191,32 @@ func (tb *TB) reindex(k, lo, hi, body *Term) (*Term, *Term, *Term) {
 	}
 	find(body)
 	if C == nil {
+		// full range of a narrower unsigned type (forall(0, 1<<32, ...) with the variable
+		// converted to a 32-bit key): quantify over the narrow variable, so that the key itself is
+		// the instantiation pattern
+		if lo.Op == "bv" && lo.Val.Sign() == 0 && hi.Op == "bv" && k.Sort.W == 64 {
+			for _, w := range []int{8, 16, 32} {
+				if hi.Val.Cmp(new(big.Int).Lsh(big.NewInt(1), uint(w))) == 0 {
+					j := tb.BoundVar("n", tb.BV(w))
+					nb := tb.Subst(body, k, tb.ZExt(j, 64))
+					return j, tb.True, nb
+				}
+			}
+		}
 		return k, tb.And(tb.SLe(lo, k), tb.SLt(k, hi)), body
 	}
 	a := tb.BoundVar("a", k.Sort)
 	rel := tb.Sub(a, C)
 	nb := tb.Subst(body, k, rel)
 	rng := tb.And(tb.SLe(lo, rel), tb.SLt(rel, hi))
+	// Where offset and bounds are small (always, for slices: 2^48), the range is the plain
+	// interval [C+lo, C+hi) of the absolute index: no subtraction from the bound variable, which
+	// solvers find much easier.  Both forms are equivalent when nothing overflows; the guard
+	// keeps the formula exact otherwise.
+	lim := tb.BVInt(1<<62, 64)
+	nlim := tb.BVInt(-(1 << 62), 64)
+	small := tb.And(tb.SLe(tb.BVInt(0, 64), C), tb.SLe(C, lim), tb.SLe(nlim, lo), tb.SLe(lo, lim), tb.SLe(nlim, hi), tb.SLe(hi, lim))
+	plain := tb.And(tb.SLe(tb.Add(C, lo), a), tb.SLt(a, tb.Add(C, hi)))
+	rng = tb.Ite(small, plain, rng)
 	return a, rng, nb
 }
